@@ -10,10 +10,81 @@ import z3
 CVC5 = '/usr/bin/cvc5'
 
 
+def _model_dict(m):
+    model = {}
+    for d in m.decls():
+        if d.arity() == 0:
+            v = m[d]
+            try:
+                if z3.is_int_value(v):
+                    model[d.name()] = v.as_long()
+                elif z3.is_string_value(v):
+                    model[d.name()] = v.as_string()
+                elif z3.is_true(v) or z3.is_false(v):
+                    model[d.name()] = z3.is_true(v)
+                elif z3.is_rational_value(v):
+                    model[d.name()] = float(v.numerator_as_long()) / float(v.denominator_as_long())
+                else:
+                    model[d.name()] = str(v)[:200]
+            except Exception:
+                model[d.name()] = str(v)[:200]
+    return model
+
+
+def _has_quantifier(e, seen=None):
+    seen = seen if seen is not None else set()
+    if e.get_id() in seen:
+        return False
+    seen.add(e.get_id())
+    if z3.is_quantifier(e):
+        return True
+    return any(_has_quantifier(c, seen) for c in e.children())
+
+
+def _candidate_without_quantifiers(smt2, timeout_ms=3000):
+    """A *candidate* counter-model: the quantified hypotheses are dropped (weaker hypotheses, more models).  It proves
+    nothing; the driver only uses it as an input to replay on the real code."""
+    try:
+        ctx = z3.Context()
+        fs = z3.parse_smt2_string(smt2, ctx=ctx)
+        s = z3.Solver(ctx=ctx)
+        s.set('timeout', timeout_ms)
+        for f in fs:
+            if not _has_quantifier(f):
+                s.add(f)
+        if s.check() == z3.sat:
+            return _model_dict(s.model()) or {'_': 0}
+    except Exception:
+        pass
+    return None
+
+
 def _check_z3(args):
+    """Quantified obligations are tried first with E-matching only (mbqi off): `unsat` is a proof; `unknown` then
+    comes with a candidate model (it satisfies the ground part and the instances tried) that the driver replays on
+    the real code.  Second stage: full z3 (mbqi on)."""
     idx, smt2, timeout_ms, want_model = args
     t0 = time.time()
+    cand = None
     try:
+        if 'forall' in smt2:
+            ctx = z3.Context()
+            s = z3.Solver(ctx=ctx)
+            s.set('timeout', max(2000, timeout_ms // 2))
+            s.set('smt.mbqi', False)
+            s.set('smt.auto_config', False)
+            s.from_string(smt2)
+            r = s.check()
+            if r == z3.unsat:
+                return idx, 'unsat', None, time.time() - t0, '', None
+            if r == z3.sat:
+                return idx, 'sat', _model_dict(s.model()), time.time() - t0, '', None
+            try:
+                cand = _model_dict(s.model())
+            except Exception:
+                cand = None
+            if not cand:
+                cand = _candidate_without_quantifiers(smt2)
         ctx = z3.Context()
         s = z3.Solver(ctx=ctx)
         s.set('timeout', timeout_ms)
@@ -21,27 +92,10 @@ def _check_z3(args):
         r = s.check()
         model = None
         if r == z3.sat and want_model:
-            m = s.model()
-            model = {}
-            for d in m.decls():
-                if d.arity() == 0:
-                    v = m[d]
-                    try:
-                        if z3.is_int_value(v):
-                            model[d.name()] = v.as_long()
-                        elif z3.is_string_value(v):
-                            model[d.name()] = v.as_string()
-                        elif z3.is_true(v) or z3.is_false(v):
-                            model[d.name()] = z3.is_true(v)
-                        elif z3.is_rational_value(v):
-                            model[d.name()] = float(v.numerator_as_long()) / float(v.denominator_as_long())
-                        else:
-                            model[d.name()] = str(v)
-                    except Exception:
-                        model[d.name()] = str(v)
-        return idx, str(r), model, time.time() - t0, (s.reason_unknown() if r == z3.unknown else '')
+            model = _model_dict(s.model())
+        return idx, str(r), model, time.time() - t0, (s.reason_unknown() if r == z3.unknown else ''), cand
     except Exception as e:   # parse errors etc: undecided, never a verdict
-        return idx, 'unknown', None, time.time() - t0, f"z3 error: {e}"
+        return idx, 'unknown', None, time.time() - t0, f"z3 error: {e}", cand
 
 
 def _check_cvc5(smt2, timeout_s):
@@ -75,17 +129,19 @@ def _cvc5_worker(args):
 def discharge(obls, timeout_s=10, procs=None, use_cvc5=True, both=False):
     """fills o.result / o.backend / o.model / o.time for every obligation"""
     procs = procs or min(16, os.cpu_count() or 4)
-    jobs = [(i, o.smt2(), int(timeout_s * 1000), True) for i, o in enumerate(obls)]
+    # vacuity (satisfiability) probes get a short budget: `unknown` there is not a failure, only `unsat` is
+    jobs = [(i, o.smt2(), int((3 if o.meta.get('kind') == 'vacuity-neg' else timeout_s) * 1000), True) for i, o in enumerate(obls)]
     texts = {i: j[1] for i, j in enumerate(jobs)}
     t0 = time.time()
     if not jobs:
         return 0.0
     with mp.get_context('fork').Pool(procs) as pool:
-        for idx, r, model, t, why in pool.imap_unordered(_check_z3, jobs, chunksize=1):
+        for idx, r, model, t, why, cand in pool.imap_unordered(_check_z3, jobs, chunksize=1):
             o = obls[idx]
-            o.result, o.model, o.time, o.backend, o.why = r, model, t, 'z3', why
+            o.result, o.model, o.time, o.backend, o.why, o.candidate = r, model, t, 'z3', why, cand
         if use_cvc5:
-            todo = [(i, texts[i], timeout_s) for i, o in enumerate(obls) if o.result == 'unknown' or both]
+            todo = [(i, texts[i], timeout_s) for i, o in enumerate(obls)
+                    if (o.result == 'unknown' or both) and o.meta.get('kind') != 'vacuity-neg']
             for idx, r, t in pool.imap_unordered(_cvc5_worker, todo, chunksize=1):
                 o = obls[idx]
                 o.time += t
